@@ -4,6 +4,8 @@ usage: run_seeded.py <patch.diff> <Cxx> [<Cyy> ...] [--tier quick] [--seed N]
 Prints one line per check: CAUGHT (exit 1 + VIOLATION line) / MISSED (exit 0)."""
 import os, shutil, subprocess, sys, tempfile
 
+V = os.path.dirname(os.path.dirname(os.path.abspath(__file__)))
+
 def main():
     args = sys.argv[1:]
     tier, seed = "quick", "0"
@@ -13,6 +15,12 @@ def main():
         i = args.index("--seed"); seed = args[i + 1]; del args[i:i + 2]
     patch, checks = args[0], args[1:]
     scratch = tempfile.mkdtemp(prefix="seed_repo_", dir="/tmp")
+    # evidence files describe runs on the unchanged tree only: keep them as they are
+    saved = {}
+    for c in checks:
+        ep = os.path.join(V, "evidence", c + ".json")
+        if os.path.exists(ep):
+            saved[ep] = open(ep, "rb").read()
     try:
         subprocess.run(["cp", "-r", "/repo/mashumaro", scratch + "/mashumaro"], check=True)
         for f in ("pyproject.toml", "setup.py", "README.md"):
@@ -24,7 +32,7 @@ def main():
             return 2
         env = dict(os.environ, VERIF_REPO=scratch, VERIF_SEED=seed)
         for c in checks:
-            p = subprocess.run(["./check", c, tier], cwd="/verif", env=env, capture_output=True, text=True)
+            p = subprocess.run(["./check", c, tier], cwd=V, env=env, capture_output=True, text=True)
             viol = [l for l in p.stdout.splitlines() if l.startswith("VIOLATION")]
             last = p.stdout.strip().splitlines()[-1] if p.stdout.strip() else ""
             status = "CAUGHT" if p.returncode == 1 and viol else ("MISSED" if p.returncode == 0 else f"RC{p.returncode}")
@@ -32,9 +40,11 @@ def main():
             print(f"{status} {c} {os.path.dirname(patch)} violations={len(viol)} (no-input={nf}) | {last[:150]}")
     finally:
         shutil.rmtree(scratch, ignore_errors=True)
+        for ep, data in saved.items():
+            open(ep, "wb").write(data)
         # bring generated kernels back in line with /repo
-        subprocess.run(["/venv/bin/python", "tools/gen_kernels.py"], cwd="/verif", capture_output=True,
-                       env=dict(os.environ, PYTHONPATH="/repo:/verif:/verif/.pydeps"))
+        subprocess.run(["/venv/bin/python", "tools/gen_kernels.py"], cwd=V, capture_output=True,
+                       env=dict(os.environ, PYTHONPATH=f"/repo:{V}:{V}/.pydeps"))
     return 0
 
 if __name__ == "__main__":
